@@ -3229,7 +3229,7 @@ static Node *primary(Token **rest, Token *tok) {
     // the first and the second eightbyte are of class SSE, bit 2 whether
     // there is a second eightbyte.
     if ((ty->kind == TY_STRUCT || ty->kind == TY_UNION) &&
-        0 < ty->size && ty->size <= 16) {
+        0 < ty->size && ty->size <= 16 && !has_ldouble(ty)) {
       int klass = 16;
       if (has_flonum(ty, 0, 8, 0))
         klass |= 1;
